@@ -130,7 +130,7 @@ fn alphabet() -> Vec<Sym> {
 }
 
 /// Waiting times used by the token-age histories (seconds).
-const WAITS: [u32; 12] = [1, 30, 59, 61, 120, 240, 299, 301, 360, 599, 601, 1500];
+const WAITS: [u32; 11] = [1, 30, 59, 61, 120, 240, 299, 301, 360, 601, 1500];
 
 fn timed_alphabet() -> Vec<Sym> {
     let mut v = alphabet();
@@ -161,6 +161,8 @@ struct Env {
     _s2: dht::Dht,
     filtered: bool,
     counts: BTreeMap<&'static str, u64>,
+    /// virtual send times of the requests the server handled (not vetoed by the filter)
+    arrivals: Vec<u64>,
 }
 
 fn new_env(seed: u64, filtered: bool) -> Env {
@@ -179,7 +181,7 @@ fn new_env(seed: u64, filtered: bool) -> Env {
         Reply::Resp(k) => k.res_bytes("token").map(|t| t.to_vec()).unwrap_or_default(),
         _ => vec![],
     };
-    Env { fx, cl, tok_other_server, store: Store::default(), _s2: s2.dht.clone(), filtered, counts: BTreeMap::new() }
+    Env { fx, cl, tok_other_server, store: Store::default(), _s2: s2.dht.clone(), filtered, counts: BTreeMap::new(), arrivals: vec![] }
 }
 
 /// per-history payload context (fresh targets each history)
@@ -229,16 +231,17 @@ fn token_bytes(env: &Env, who: usize, tok: Tok, rng: &mut Rng) -> Vec<u8> {
 #[derive(Clone, Copy, Debug, PartialEq, Eq)]
 enum Tv {
     Must,
-    /// issued to this IP between one and two rotation intervals ago: the node may or may not still honour it
+    /// issued to this IP more than one interval ago but not provably two rotations ago: may or may not be honoured
     Either,
     Stale,
     No,
 }
 
-/// "A token this node recently issued to the sender's IP": clients use a token for up to one rotation
-/// interval (5 min, `Node::valid_token`), so a token younger than that must be honoured; the node documents
-/// `Tokens::validate` as "generated within the past 10 minutes" (BEP5: "tokens up to ten minutes old are
-/// accepted"), so one older than two intervals must be refused. One second of slack on both bounds.
+/// "A token this node recently issued to the sender's IP", read as C15 states it and as the code documents
+/// it: clients use a token for up to one rotation interval (5 min, `Node::valid_token`), so a token
+/// younger than that must be honoured; secrets rotate lazily on the next request after an interval has
+/// passed, so a token stops being honoured after two rotations, i.e. once it is older than two intervals
+/// plus twice the longest gap between requests the node handled meanwhile. One second of slack on both.
 fn token_valid(who: usize, tok: Tok, env: &Env) -> Tv {
     let src = match tok {
         Tok::Own => who,
@@ -247,11 +250,18 @@ fn token_valid(who: usize, tok: Tok, env: &Env) -> Tv {
         _ => return Tv::No,
     };
     let Some((_, issued)) = env.cl[src].token else { return Tv::No };
-    let age = env.fx.w.now().saturating_sub(issued);
+    let now = env.fx.w.now();
+    let age = now.saturating_sub(issued);
     let interval = 300 * crate::simnet::SEC;
+    let mut last = issued;
+    let mut gap = 0;
+    for &t in env.arrivals.iter().filter(|&&t| t > issued).chain(std::iter::once(&now)) {
+        gap = gap.max(t.saturating_sub(last));
+        last = t;
+    }
     if age + crate::simnet::SEC < interval {
         Tv::Must
-    } else if age > 2 * interval + crate::simnet::SEC {
+    } else if age > 2 * interval + 2 * gap + crate::simnet::SEC {
         Tv::Stale
     } else {
         Tv::Either
@@ -262,6 +272,12 @@ fn exec(env: &mut Env, h: &mut H, s: &Sym, rng: &mut Rng) -> Option<(String, Str
     let filtered_out = env.filtered && (s.who == E || (s.who == D && !matches!(s.act, Act::ReadPeers | Act::ReadGetImm | Act::ReadGetMut | Act::ReadSigned)));
     let token = token_bytes(env, s.who, s.tok, rng);
     let tv = token_valid(s.who, s.tok, env);
+    if !filtered_out && !matches!(s.act, Act::Wait { .. }) {
+        env.arrivals.push(env.fx.w.now());
+        if env.arrivals.len() > 4096 {
+            env.arrivals.drain(..2048);
+        }
+    }
     let id = env.cl[s.who].id;
     let from = env.cl[s.who].addr;
     let any = vec![203, 205, 206, 207];
@@ -384,12 +400,12 @@ fn exec(env: &mut Env, h: &mut H, s: &Sym, rng: &mut Rng) -> Option<(String, Str
     if !filtered_out {
         *env.counts.entry(match tv {
             Tv::Must => "writes_with_fresh_token",
-            Tv::Either => "writes_with_token_aged_5_to_10_min",
-            Tv::Stale => "writes_with_token_older_than_10_min",
+            Tv::Either => "writes_with_token_between_bounds",
+            Tv::Stale => "writes_with_token_older_than_two_rotations",
             Tv::No => "writes_with_foreign_or_forged_token",
         }).or_default() += 1;
         if tv == Tv::Either && faults.is_empty() {
-            *env.counts.entry(if reply.is_ack() { "aged_5_to_10_min_accepted" } else { "aged_5_to_10_min_refused" }).or_default() += 1;
+            *env.counts.entry(if reply.is_ack() { "token_between_bounds_accepted" } else { "token_between_bounds_refused" }).or_default() += 1;
         }
     }
     if filtered_out {
@@ -410,7 +426,7 @@ fn exec(env: &mut Env, h: &mut H, s: &Sym, rng: &mut Rng) -> Option<(String, Str
             if must_reject {
                 let why = match tv {
                     Tv::No => format!("token-{:?}", s.tok),
-                    Tv::Stale => "token-older-than-two-rotation-intervals".to_string(),
+                    Tv::Stale => "token-older-than-two-rotations".to_string(),
                     _ => payload_fault_name(&s.act),
                 };
                 return Some((format!("write/accepted-must-reject/{kind}/{why}"), format!("write acknowledged although it must be rejected ({why})"), json!({"allowed_codes": allowed})));
@@ -460,6 +476,7 @@ fn judge_read(env: &Env, reply: &Reply, filtered_out: bool, _s: &Sym) -> Option<
 /// Fresh endpoint reads every touched target and compares with the model's store.
 fn probe(env: &mut Env, h: &H) -> Option<(String, String, Value)> {
     let id = env.cl[P].id;
+    env.arrivals.push(env.fx.w.now());
     let mut imm_targets = h.imm_target_seen.clone();
     imm_targets.dedup();
     for t in imm_targets {
@@ -641,8 +658,8 @@ fn aged(r: &mut Report, a: &Args, rng: &mut Rng) {
         Announce { port: 4242, implied: None },
         Signed { dt_us: 0, bad_sig: false },
     ];
-    // total ages (seconds) the old token reaches; WAITS holds the pieces they are composed of
-    let ages: [&[u32]; 12] = [&[1], &[240], &[299], &[301], &[360, 61], &[599], &[601], &[301, 301], &[360, 360], &[301, 301, 301], &[599, 599], &[1500, 1500]];
+    // (piece, count): the old token reaches piece * count seconds, with traffic after every piece
+    let ages: [(u32, u32); 14] = [(1, 1), (240, 1), (299, 1), (61, 5), (120, 4), (601, 1), (120, 8), (240, 5), (61, 13), (299, 5), (30, 25), (59, 13), (360, 4), (1500, 2)];
     let n_hist = (if a.quick() { 96 } else { 1920 }) / a.nshards.max(1);
     let mut env = new_env(mix(a.seed, 0xa6ed + a.shard), false);
     for i in 0..n_hist {
@@ -650,11 +667,11 @@ fn aged(r: &mut Report, a: &Args, rng: &mut Rng) {
             report_panics(r, env.fx.finish());
             env = new_env(mix(a.seed, 0xa6ed + i * 131 + a.shard), false);
         }
-        let pieces = ages[((i + a.shard) % ages.len() as u64) as usize];
+        let (piece, count) = ages[((i + a.shard) % ages.len() as u64) as usize];
         let pattern = ((i + a.shard) / ages.len() as u64 + rng.below(4)) % 4;
         let mut hist = vec![s(A, ReadPeers, Tok::Own), s(B, ReadGetImm, Tok::Own)];
-        for &secs in pieces {
-            hist.push(wait(secs));
+        for _ in 0..count {
+            hist.push(wait(piece));
             match pattern {
                 0 => {}
                 1 => hist.push(s(B, if rng.below(2) == 0 { ReadPeers } else { ReadGetMut }, Tok::Own)),
